@@ -184,8 +184,10 @@ class Executor(object):
         if pv == "copy":
             return self.guard("deepcopy", lambda: copy.deepcopy(o))
         if pv == "neg":
+            self.also = o  # the object it was negated from stays around (it may share its support with the negation)
             return self.guard("negation", lambda: -o)
         if pv == "negneg":
+            self.also = o
             return self.guard("negation", lambda: -(-o))
         if pv in ("moved", "moved-ret"):
             v = VECS[4]
@@ -352,7 +354,7 @@ class Executor(object):
                 if not _num_eq(self.guard("area", o.area), X.surface_area(model)) or not _num_eq(self.guard("length", o.length), X.perimeter(model)):
                     raise Fail("%s [K]: area/length changed" % tag, {}, self.facts)
 
-        for b, bmodel, stays in self.bystanders:
+        for b, bmodel, stays in (self.bystanders if when != "after query" else ()):
             tag = "an earlier receiver/returned object (%s)" % when
             self.self_consistent(b, tag)
             if stays:
@@ -393,6 +395,24 @@ class Executor(object):
             pn = self.guard("point_normal", o.point_normal)
             if self.guard("in", lambda: G.Point(pn[0]) in o) is not True:
                 raise Fail("%s [PL]: the plane does not contain the point of its point_normal() form" % tag, {}, self.facts)
+            pu = self.guard("parametric", o.parametric)
+            if self.guard("in", lambda: G.Point(pu[0]) in o) is not True:
+                raise Fail("%s [PL]: the plane does not contain the point of its parametric() form" % tag, {}, self.facts)
+            twin = self.guard("Plane(p, n)", lambda: G.Plane(copy.deepcopy(o.p), copy.deepcopy(o.n)))
+            if self.guard("==", lambda: o == twin) is not True or self.guard("hash", lambda: hash(o)) != self.guard("hash", lambda: hash(twin)):
+                raise Fail("%s [PL]: the plane differs from / hashes unlike a plane built from its own point and normal" % tag, {}, self.facts)
+        elif k == "L":
+            twin = self.guard("Line(sv, dv)", lambda: G.Line(copy.deepcopy(o.sv), copy.deepcopy(o.dv)))
+            if self.guard("==", lambda: o == twin) is not True or self.guard("hash", lambda: hash(o)) != self.guard("hash", lambda: hash(twin)):
+                raise Fail("%s [L]: the line differs from / hashes unlike a line built from its own support and direction" % tag, {}, self.facts)
+            su = self.guard("parametric", o.parametric)
+            why = B.same_set(("L", B._v3(o.sv), B._v3(o.dv)), ("L", B._v3(su[0]), B._v3(su[1])))
+            if why:
+                raise Fail("%s [L]: parametric() does not describe the line's own support and direction: %s" % (tag, why), {}, self.facts)
+        elif k == "P":
+            twin = G.Point(o.x, o.y, o.z)
+            if self.guard("==", lambda: o == twin) is not True or self.guard("hash", lambda: hash(o)) != self.guard("hash", lambda: hash(twin)):
+                raise Fail("%s [P]: the point differs from / hashes unlike a point with its own coordinates" % tag, {}, self.facts)
         elif k in ("S", "H"):
             a = B._xyz(o.start_point if k == "S" else o.point)
             if k == "S":
@@ -407,11 +427,17 @@ class Executor(object):
             for e_ in ends:
                 if self.guard("in", lambda: e_ in o) is not True:
                     raise Fail("%s [%s]: the object does not contain its own end point" % (tag, k), {}, self.facts)
+            twin = self.guard("constructor", lambda: G.Segment(o.start_point, o.end_point) if k == "S" else G.HalfLine(o.point, o.vector))
+            if self.guard("==", lambda: o == twin) is not True or self.guard("hash", lambda: hash(o)) != self.guard("hash", lambda: hash(twin)):
+                raise Fail("%s [%s]: the object differs from / hashes unlike one built from its own end points" % (tag, k), {}, self.facts)
         elif k == "G":
             polygon_ok(o, "polygon")
             for v_ in o.points:
                 if self.guard("in", lambda: v_ in o) is not True:
                     raise Fail("%s [G]: the polygon does not contain its own vertex" % tag, {"vertex": B._xyz(v_)}, self.facts)
+            twin = self.guard("ConvexPolygon(points)", lambda: G.ConvexPolygon(tuple(o.points)))
+            if self.guard("==", lambda: o == twin) is not True or self.guard("hash", lambda: hash(o)) != self.guard("hash", lambda: hash(twin)):
+                raise Fail("%s [G]: the polygon differs from / hashes unlike one built from its own vertices" % tag, {}, self.facts)
         elif k == "K":
             allp = set()
             for f in o.convex_polygons:
@@ -424,6 +450,9 @@ class Executor(object):
             for v_ in o.point_set:
                 if self.guard("in", lambda: v_ in o) is not True:
                     raise Fail("%s [K]: the polyhedron does not contain its own vertex" % tag, {"vertex": B._xyz(v_)}, self.facts)
+            twin = self.guard("ConvexPolyhedron(faces)", lambda: G.ConvexPolyhedron(tuple(o.convex_polygons)))
+            if self.guard("==", lambda: o == twin) is not True or self.guard("hash", lambda: hash(o)) != self.guard("hash", lambda: hash(twin)):
+                raise Fail("%s [K]: the polyhedron differs from / hashes unlike one built from its own faces" % tag, {}, self.facts)
 
     # ---- queries
     def query(self, other):
